@@ -4,7 +4,7 @@ from ..common import MachineryError
 
 MANIFEST = {
     "engine": "S5-Fem",
-    "technique": "TLA+ exact reference semantics (Fem.tla + RefCell.tla) evaluated by TLC for every local entity / restriction case enumerated from FormSpace.tla; real kernels compared entry-wise",
+    "technique": "TLA+ exact reference semantics (Fem.tla + RefCell.tla) evaluated by TLC for every local entity / restriction case enumerated from FormSpace.tla; real kernels compared entry-wise; plus S7: TLA+ model of the element-table pipeline (TableOpt.tla, exhaustively checked) bound to the real pipeline by injected tables (facet scope), records judged by TLC",
     "text": "FormSpace.tla enumerates facet/vertex cases (cell incl. prism x element x integrand (mass, flux with normals, coefficients, "
             "jumps, averages, +/- products) x measure ds/dS/dP x rule). For exterior facets and vertices every local entity index is run; for "
             "interior facets two cells that really share a facet are generated with random local numbering on the '-' side, different data on "
